@@ -180,12 +180,17 @@ def q1_pop_readd(F, R, M, b, roles, byrole):
         # success of pop on this path?
         succ = False
         for disc, (kind, vals), _ in p.conds:
-            if derives_from(disc, lambda x: x[0] == 'call' and x[1] == pe[1]) and disc[0] == 'discr':
+            if not derives_from(disc, lambda x: x[0] == 'call' and x[1] == pe[1]):
+                continue
+            if disc[0] == 'discr':
                 inner = disc[1]
                 if inner[0] == 'call' and inner[1] == pe[1]:
                     succ = (kind, vals) == ('in', (0,))
                 else:
                     succ = (kind, vals) == ('in', (1,))     # Option from .ok(): Some
+            elif disc[0] == 'call' and disc[2].startswith('core::result::Result::') and disc[2].rsplit('::', 1)[1] in ('is_err', 'is_ok'):
+                truth = (kind == 'notin' and 0 in vals) or (kind == 'in' and 0 not in vals)
+                succ = truth if disc[2].endswith('::is_ok') else not truth
         if not succ:
             continue
         nc += 1
